@@ -127,7 +127,8 @@ def relocation_oracle(sym, x, y, groups):
 
 
 def same_blocks(a, b):
-    return set(a.blocks) == set(b.blocks) and all(np.array_equal(np.asarray(a.blocks[k]), np.asarray(b.blocks[k])) for k in a.blocks) \
+    return set(a.blocks) == set(b.blocks) and all(np.array_equal(np.asarray(a.blocks[k]), np.asarray(b.blocks[k]))
+                                                  and np.asarray(a.blocks[k]).dtype == np.asarray(b.blocks[k]).dtype for k in a.blocks) \
         and all(i.chargemap == j.chargemap and i.dual == j.dual for i, j in zip(a.indices, b.indices)) and a.ndim == b.ndim
 
 
@@ -146,6 +147,11 @@ def run(ctx):
         cplx = rng.random() < 0.25
         nd = rng.randint(2, 4)
         x = gen.rand_array(rng, sr, sym, ndim=nd, cplx=cplx, maxsize=2 if nd == 4 else 3, keep=rng.choice([1.0, 0.8, 0.6, 0.5, 0.3]))
+        if rng.random() < 0.3 and x.blocks:
+            # other element types (same integer values): bit-for-bit includes the type of every block
+            dt = rng.choice(['complex64'] if cplx else ['float32', 'int64'])
+            x = x.copy_with(blocks={kk: np.asarray(v).astype(dt) for kk, v in x.blocks.items()})
+            stats['dtype_' + dt] = stats.get('dtype_' + dt, 0) + 1
         nested = False
         if rng.random() < 0.25 and nd >= 3 and x.blocks:
             # start from an already-fused array (nested sub-index tables)
@@ -259,8 +265,9 @@ def run(ctx):
                 errs = {'error': 'unfusing does not restore the index structure'}
             else:
                 for s, b in xt.blocks.items():
-                    if s not in z.blocks or not np.array_equal(np.asarray(z.blocks[s]), np.asarray(b)):
-                        errs = {'error': 'original block %r not restored bit-for-bit' % (s,)}
+                    if s not in z.blocks or not np.array_equal(np.asarray(z.blocks[s]), np.asarray(b)) \
+                            or np.asarray(z.blocks[s]).dtype != np.asarray(b).dtype:
+                        errs = {'error': 'original block %r not restored bit-for-bit (values or element type)' % (s,)}
                         break
                 else:
                     for s, b in z.blocks.items():
@@ -278,6 +285,40 @@ def run(ctx):
                           'replay': rl.record('fuse_unfuse', {'x': x}, {'symmetry': sym, 'groups': groups})})
         if k < 2:
             ctx.sample({'symmetry': sym, 'groups': groups, 'x': describe(x)})
+    # ---- rank 4, two two-axis groups, sparse, element types other than the default: the concat strategy has to make zero
+    #      fillers for missing sub-blocks of the right type; both strategies and the way back are compared bit for bit
+    for k in range(n_cases // 2):
+        sym = SYMS[k % len(SYMS)]
+        cplx = rng.random() < 0.3
+        x = gen.rand_array(rng, sr, sym, ndim=4, cplx=cplx, maxsize=2, keep=rng.choice([0.9, 0.7, 0.5]))
+        if not x.blocks:
+            continue
+        dt = rng.choice(['complex64'] if cplx else ['float32', 'int64', 'float64'])
+        x = x.copy_with(blocks={kk: np.asarray(v).astype(dt) for kk, v in x.blocks.items()})
+        pp = list(range(4)); rng.shuffle(pp)
+        groups = [pp[:2], pp[2:]]
+        stats['two_group_typed'] = stats.get('two_group_typed', 0) + 1
+        try:
+            ctx.count(2)
+            ya, yb = x.fuse(*groups, mode='insert'), x.fuse(*groups, mode='concat')
+            errs = None
+            if not same_blocks(ya, yb):
+                errs = {'error': 'insert and concat differ (values or element types %r / %r)' % (
+                    sorted({str(np.asarray(b).dtype) for b in ya.blocks.values()}), sorted({str(np.asarray(b).dtype) for b in yb.blocks.values()}))}
+            else:
+                z = yb.unfuse(1).unfuse(0)
+                xt = x.transpose(tuple(groups[0] + groups[1]))
+                for sct, b in xt.blocks.items():
+                    zb = z.blocks.get(sct)
+                    if zb is None or not np.array_equal(np.asarray(zb), np.asarray(b)) or np.asarray(zb).dtype != np.asarray(b).dtype:
+                        errs = {'error': 'original block %r not restored bit-for-bit (values or element type) by the concat route' % (sct,)}
+                        break
+            if errs:
+                found.append({'op': 'fuse (two groups, %s data)' % dt, 'symmetry': sym, 'x': describe(x), 'groups': groups, **errs,
+                              'replay': rl.record('fuse', {'x': x}, {'symmetry': sym, 'groups': groups})})
+        except Exception as e:
+            found.append({'op': 'fuse (two groups, %s data)' % dt, 'symmetry': sym, 'x': describe(x), 'groups': groups,
+                          'raised': '%s: %s' % (type(e).__name__, e)})
     # ---- fermionic arrays, with and without pending (lazy) signs: both strategies agree, the lazy and the
     #      synchronised copy fuse to the same array, and unfusing restores the (transposed) original exactly
     fstats = {'cases': 0, 'pending_signs': 0, 'identity_perm_ket_leading': 0, 'odd_blocks': 0}
